@@ -165,6 +165,8 @@ class HTTP(BaseComponent):
         if res.stream and res.body:
             try:
                 data = next(res.body)
+                while not data:  # an empty chunk would end a chunked body
+                    data = next(res.body)
             except StopIteration:
                 data = None
             self.fire(stream(res, data))
